@@ -124,7 +124,7 @@ func (s *Snapshot) hashInto(h interface{ Write([]byte) (int, error) }, clock boo
 		fmt.Fprintf(h, "H%d T%d X%d;", s.Height, s.Time, s.TxCount)
 	}
 	for _, v := range s.Staking {
-		fmt.Fprintf(h, "V%s:%v:%d:%v:%v;", v.Oper, v.Bonded, v.Power, v.Unbonding, v.Jailed)
+		fmt.Fprintf(h, "V%s:%v:%d:%v:%v:%v:%v:%v:%d:%d;", v.Oper, v.Bonded, v.Power, v.Unbonding, v.Jailed, v.Removed, v.WasJailed, v.HasNext, v.NextPower, v.NextBonded)
 	}
 }
 
@@ -336,8 +336,14 @@ func (in *Instance) InitGenesis(g Genesis) {
 				panic(GenesisPanic{Value: r, Stack: string(debug.Stack())})
 			}
 		}()
-		oraclekeeper.InitGenesis(ctx, in.Oracle, g.Oracle)
-		mhubkeeper.InitGenesis(ctx, in.Hub, g.Hub)
+		for _, m := range AppOrder("InitGenesis") {
+			switch m {
+			case "oracle":
+				oraclekeeper.InitGenesis(ctx, in.Oracle, g.Oracle)
+			case "mhub2":
+				mhubkeeper.InitGenesis(ctx, in.Hub, g.Hub)
+			}
+		}
 	}()
 	in.Events = nil
 	if in.GenesisClosed {
@@ -403,10 +409,20 @@ func (in *Instance) EndBlock() *Panic {
 		panic("EndBlock: no open block")
 	}
 	ctx := in.ctxOn(in.blockMS)
-	in.Staking.EndBlocker() // app.go: staking's EndBlocker runs before mhub2's
-	p := guard("mhub2.EndBlocker", func() { mhub2.EndBlocker(ctx, in.Hub) })
-	if p == nil {
-		p = guard("oracle.EndBlocker", func() { oracle.EndBlocker(ctx, in.Oracle) })
+	// the EndBlockers run in the order app.go gives the module manager (staking, mhub2, oracle on the unchanged tree)
+	var p *Panic
+	for _, m := range AppOrder("EndBlockers") {
+		if p != nil {
+			break
+		}
+		switch m {
+		case "staking":
+			in.Staking.EndBlocker()
+		case "mhub2":
+			p = guard("mhub2.EndBlocker", func() { mhub2.EndBlocker(ctx, in.Hub) })
+		case "oracle":
+			p = guard("oracle.EndBlocker", func() { oracle.EndBlocker(ctx, in.Oracle) })
+		}
 	}
 	in.Events = append(in.Events, ctx.EventManager().ABCIEvents()...)
 	if p == nil && in.BeforeCommit != nil {
@@ -436,6 +452,17 @@ func (in *Instance) ValSetPower(i int, power int64) {
 	h.AfterDelegationModified(in.Ctx(), del, oper)
 }
 
+// ValChangeDeferred: a staking transaction of this block changes validator i's stake (bonded: 0 keep, 1 enter the
+// bonded set, 2 leave it). Tokens change at once; last power, total power and status at the staking EndBlocker.
+func (in *Instance) ValChangeDeferred(i int, power int64, bonded int8) {
+	oper, _, del := in.valAddrs(i)
+	h := in.Hub.Hooks()
+	h.BeforeDelegationSharesModified(in.Ctx(), del, oper)
+	v := &in.Staking.Vals[i]
+	v.HasNext, v.NextPower, v.NextBonded = true, power, bonded
+	h.AfterDelegationModified(in.Ctx(), del, oper)
+}
+
 // ValUnbond: validator i leaves the bonded set (x/staking bondedToUnbonding).
 func (in *Instance) ValUnbond(i int) {
 	oper, cons, _ := in.valAddrs(i)
@@ -451,6 +478,7 @@ func (in *Instance) ValRebond(i int) {
 	oper, cons, _ := in.valAddrs(i)
 	was := in.Staking.Vals[i].Bonded
 	in.Staking.Vals[i].Bonded = true
+	in.Staking.Vals[i].WasJailed = false // MsgUnjail precedes re-bonding
 	if !was {
 		in.Hub.Hooks().AfterValidatorBonded(in.Ctx(), cons, oper)
 	}
@@ -483,7 +511,7 @@ func (in *Instance) ValReturn(i int, power int64) {
 	oper, _ := sdk.ValAddressFromBech32(v.Oper)
 	cons := sdk.ConsAddress(oper)
 	h := in.Hub.Hooks()
-	v.Removed, v.Bonded, v.Unbonding, v.Jailed, v.Power = false, true, false, false, power
+	v.Removed, v.Bonded, v.Unbonding, v.Jailed, v.WasJailed, v.Power = false, true, false, false, false, power
 	h.AfterValidatorCreated(in.Ctx(), oper)
 	h.BeforeDelegationCreated(in.Ctx(), sdk.AccAddress(oper), oper)
 	h.AfterDelegationModified(in.Ctx(), sdk.AccAddress(oper), oper)
